@@ -458,7 +458,62 @@ pub fn run(ctx: &Ctx, rep: &Report) {
     par_items(ctx.threads, subcat.len() * 2, |i| {
         explore_traj(subcat[i / 2], 1, depth, thorough, true, 1 + (i % 2) as u8, rep, &total, &steps_total, &hist, &pruned);
     });
-    rep.part("single aircraft (DF17; DF18 and DF17/DF18 alternating on a sub-catalogue)", total.load(Ordering::Relaxed), json!({"trajectories": cat.len(), "depth": depth, "reports": steps_total.load(Ordering::Relaxed), "pruned_out_of_range": pruned.load(Ordering::Relaxed)}));
+    // long flights: every pattern of one to three (gap, parity) steps over five gaps, repeated 12 and 60 times
+    // (state that accumulates over many reports: counters, filters, caches)
+    {
+        let pgaps = [0.4, 5.0, 9.9, 30.0, 179.0];
+        let mut psyms: Vec<Step> = Vec::new();
+        for g in pgaps {
+            for odd in [false, true] {
+                psyms.push(Step { dt: g, odd });
+            }
+        }
+        let mut pats: Vec<Vec<Step>> = Vec::new();
+        for a in &psyms {
+            pats.push(vec![*a]);
+            for b in &psyms {
+                pats.push(vec![*a, *b]);
+                if thorough {
+                    for c in &psyms {
+                        pats.push(vec![*a, *b, *c]);
+                    }
+                }
+            }
+        }
+        let subcat: Vec<&Traj> = cat.iter().step_by(if thorough { 3 } else { 7 }).collect();
+        par_items(ctx.threads, subcat.len(), |i| {
+            let tr = subcat[i];
+            let tp = templates(0x4840d6);
+            let mut cnt = 0u64;
+            let mut st = 0u64;
+            let mut h = [0u64; 8];
+            let mut pr = 0u64;
+            for pat in &pats {
+                for times in [12usize, 60] {
+                    let mut steps: Vec<Step> = Vec::with_capacity(pat.len() * times);
+                    for _ in 0..times {
+                        steps.extend(pat.iter().cloned());
+                    }
+                    match check(tr, &tp, &steps, rep) {
+                        Some(f) => {
+                            h[f.min(7)] += 1;
+                            cnt += 1;
+                            st += steps.len() as u64;
+                        }
+                        None => pr += 1,
+                    }
+                }
+            }
+            total.fetch_add(cnt, Ordering::Relaxed);
+            steps_total.fetch_add(st, Ordering::Relaxed);
+            pruned.fetch_add(pr, Ordering::Relaxed);
+            let mut g = hist.lock().unwrap();
+            for k in 0..8 {
+                g[k] += h[k];
+            }
+        });
+    }
+    rep.part("single aircraft (DF17; DF18 and DF17/DF18 alternating on a sub-catalogue; periodic long flights)", total.load(Ordering::Relaxed), json!({"trajectories": cat.len(), "depth": depth, "reports": steps_total.load(Ordering::Relaxed), "pruned_out_of_range": pruned.load(Ordering::Relaxed)}));
     // two aircraft: all merge orders of two 3-report sequences
     let sub: Vec<&Traj> = cat.iter().filter(|t| t.reference_nm != Some(40.0)).step_by((cat.len() / if thorough { 24 } else { 10 }).max(1)).collect();
     let pair_total = AtomicU64::new(0);
